@@ -77,3 +77,11 @@ Theorem C05_generated_positions_on_types : forall t, valid_end t ->
   pe gbody geval_body schema pos_impl (ty_tree t) = Some (ty_pos t, ty_end t).
 Proof. exact pe_ty_tree. Qed.
 Print Assumptions C05_generated_positions_on_types.
+
+(* ---- the statement family (Parse/StmtModel.v): the node of an accepted statement carries, as its first field, the position of the
+   statement's first token -- the field all twenty-four node types document as their Pos() ---- *)
+From Verif Require Import Parse.StmtModel Parse.StmtProofs.
+Theorem C05_family_statement_starts_at_its_first_token : forall ts d r,
+  ddl_body ts = Some (Ok (d, r)) -> exists ty fs, d = DNode ty (FPos (ppos (cur ts)) :: fs).
+Proof. exact ddl_body_pos. Qed.
+Print Assumptions C05_family_statement_starts_at_its_first_token.
